@@ -495,7 +495,8 @@ class Program:
             try:
                 tags.append(self.record_cname(t) if t in self.records else type_tag(t))
             except ExtractError:
-                tags.append(re.sub(r'\W+', '_', t))
+                # the member typedef `Directed` of the undirected class: one tag for every label
+                tags.append(re.sub(r'^LabeledUndirectedGraph_.*_Directed$', 'Directed', re.sub(r'\W+', '_', t)))
         return '_'.join(tags)
 
 
